@@ -573,8 +573,65 @@ def config_type_mount_stream(ctx, res):
             res.violate("C16:ref-path", "naming the fields of a config type raised %s" % type(e).__name__, dict(case, error=str(e)[:120]))
 
 
+def parser_from_configuration_stream(ctx, res):
+    """the parser may be generated from a CONFIGURATION instead of its schema: whatever that configuration holds at that moment, an
+    option the user did not supply is `None` in the parsed namespace and the override leaves the field as it is THEN — also when the
+    values changed between generating the parser and applying the arguments, and when the arguments are applied to another configuration"""
+    import cincoconfig as cc
+    s = cc.Schema()
+    s.name = cc.StringField(default="svc")
+    s.http.port = cc.IntField(default=8080)
+    s.http.tls.ciphers = cc.StringField(default="HIGH")
+    s.http.tls.enabled = cc.BoolField(default=True)
+    s.limits.ratio = cc.FloatField(default=0.5)
+    s.limits.burst = cc.IntField(default=None)
+    for source in ("schema", "fresh-configuration", "edited-configuration"):
+        for argv in ([], ["--http-port", "9000"], ["--no-http-tls-enabled", "--limits-burst", "3"], ["--name", "cli"]):
+            holder = s()
+            if source == "edited-configuration":
+                holder.http.tls.ciphers = "LOW"
+                holder.limits.ratio = 0.75
+                holder.http.port = 1234
+                holder.http.tls.enabled = False
+            case = {"stream": "parser-from-configuration", "generated_from": source, "argv": argv}
+            res.case(stable(case), kind="parser-from-configuration:" + source)
+            try:
+                parser = cc.generate_argparse_parser(s if source == "schema" else holder)
+                ns = parser.parse_args(argv)
+                supplied = {"--http-port": "http.port", "--no-http-tls-enabled": "http.tls.enabled", "--limits-burst": "limits.burst", "--name": "name"}
+                given = {supplied[a] for a in argv if a in supplied}
+                stray = {k: v for k, v in vars(ns).items() if k not in given and v is not None}
+                if stray:
+                    res.violate("C16:parser", "an option the user did not supply is not None in the parsed namespace (the parser supplies values of its own)", dict(case, namespace=repr(stray)[:200]))
+                    continue
+                for target_kind in ("same", "other"):
+                    target = holder if target_kind == "same" else s()
+                    # the application goes on between generating the parser and applying the arguments
+                    target.http.tls.ciphers = "MEDIUM"
+                    target.limits.ratio = 0.25
+                    before = target.to_tree()
+                    cc.cmdline_args_override(target, ns)
+                    after = target.to_tree()
+                    want = json.loads(json.dumps(before))
+                    if "http.port" in given:
+                        want["http"]["port"] = 9000
+                    if "http.tls.enabled" in given:
+                        want["http"]["tls"]["enabled"] = False
+                    if "limits.burst" in given:
+                        want["limits"]["burst"] = 3
+                    if "name" in given:
+                        want["name"] = "cli"
+                    if after != want:
+                        res.violate("C16:override-touched-unsupplied", "applying parsed arguments changed a field the user did not supply (or did not set a supplied one)",
+                                    dict(case, applied_to=target_kind, before=before, after=after))
+                        break
+            except BaseException as e:  # noqa
+                res.violate("C16:parser", "generating / using a parser for a configuration raised %s" % type(e).__name__, dict(case, error=str(e)[:120]))
+
+
 def run(ctx, n_quick=200, n_thorough=6000):
     res = Result()
+    guard(res, "C16", parser_from_configuration_stream, ctx, res)
     guard(res, "C16", config_type_mount_stream, ctx, res)
     guard(res, "C16", naming_and_parser, ctx, res, ctx.n(n_quick, n_thorough))
     guard(res, "C16", explicit_key_stream, ctx, res)
